@@ -27,6 +27,9 @@ func vfC07Compile(w *vfWorld, src, opts, evMode string) *Expr {
 		conf.CompileOptions[ReportEvent] = true
 	case "debug":
 		conf.CompileOptions[Debug] = true
+	case "both":
+		conf.CompileOptions[ReportEvent] = true
+		conf.CompileOptions[Debug] = true
 	}
 	e, err := Compile(conf, src)
 	vfAssert(err == nil && e != nil, "well-formed expression compiles under "+opts)
